@@ -339,6 +339,21 @@ def assembled_case(ctx, case):
         got = Jfull[:, j]
         bad = ~kink & (np.abs(got - d) > 2e-5 * (1 + np.abs(d)) + 2e-7)
         if bad.any():
+            # second opinion at a 100x larger step: generated code may add a small term to a 1e8-scale constant
+            # (e.g. `x + 1e8 - 1e8*z` with z = 1), which quantises the residual at ~1e-8 and makes the small-step
+            # difference quotient noisy; a genuine Jacobian error shows at both step sizes
+            h2 = 100 * h
+            xp2, xm2 = xy0.copy(), xy0.copy()
+            xp2[j] += h2
+            xm2[j] -= h2
+            rp2 = resid(xp2[:n], xp2[n:])
+            rm2 = resid(xm2[:n], xm2[n:])
+            d2 = (rp2 - rm2) / (2 * h2)
+            kink2 = (np.abs((rp2 - r0) / h2 - (r0 - rm2) / h2) > 1e-2 * (1 + np.abs(d2))) | ~np.isfinite(d2)
+            agree2 = np.abs(got - d2) <= 2e-4 * (1 + np.abs(d2)) + 2e-6
+            ctx.count('assembled:second_opinion_cleared', int((bad & (agree2 | kink2)).sum()))
+            bad = bad & ~agree2 & ~kink2
+        if bad.any():
             i = int(np.argmax(np.where(bad, np.abs(got - d), 0)))
             rname = dae.xy_name[i] if i < len(dae.xy_name) else str(i)
             cname = dae.xy_name[j] if j < len(dae.xy_name) else str(j)
